@@ -86,7 +86,7 @@ def run(ctx):
     thorough = ctx.thorough()
     proved = ctx.prove()
     with V.Lock("build"):
-        model = V.build_ocaml("codec", "ExtractCodec.v", ["codec_main.ml"])
+        model = V.driver("codec")
     impl = [os.path.join(V.BUILD, "implrun"), "codec"]
     ctx.trusted += [
         "Coq 8.16.1 kernel (coqc; vm_compute for table obligations; no native_compute)",
